@@ -211,6 +211,10 @@ def check_c06(run: Run, prog: Program) -> None:
     from geolint import variance
 
     run.stats["matrix_form_actions"] = variance.rule_V5(run, prog)  # an override that replaces the generic action must still be the group action
+    if getattr(run, "focus", None) in (None, "E17"):
+        from geolint import diagram
+
+        run.stats["action_cases"] = diagram.rule_action(run, prog)
     n3 = kinds.rule_K3(run, prog, family=prog.cls("TransformationTensor"))
     run.floor("__apply__ implementations and derived caches", n4, 6)
     run.stats.update({"apply_obligations": n4, "reconstruction_obligations": n3})
@@ -368,6 +372,10 @@ def check_c07(run: Run, prog: Program) -> None:
     n2 = variance.rule_V2(run, prog)
     n3 = variance.rule_V3(run, prog)
     run.stats["matrix_form_actions"] = variance.rule_V5(run, prog)
+    if getattr(run, "focus", None) in (None, "E17"):
+        from geolint import diagram
+
+        run.stats["action_cases"] = diagram.rule_action(run, prog)
     from geolint import kinds
 
     kinds.rule_K4m(run, prog)
